@@ -130,12 +130,16 @@ def eval_cell(cell):
     # likelihood
     c0 = model.likelihood_evaluations
     SEAM.record_args = []
-    out = model.batch_evaluate_log_likelihood(x, unit_hypercube=unit)
+    try:
+        out = model.batch_evaluate_log_likelihood(x, unit_hypercube=unit)
+    except Exception as e:  # noqa
+        SEAM.record_args = None
+        return [("C10-exception", {"where": "batch_evaluate_log_likelihood", "error": repr(e)[:200]})], ()
     args = SEAM.record_args
     SEAM.record_args = None
     ref, phys = pointwise(model, x, "ll", unit)
     if out.shape != (N,) or not np.array_equal(np.asarray(out, dtype="float64"), ref):
-        bad.append(("C10-likelihood-values", {"got": np.asarray(out).tolist()[:6], "want": ref.tolist()[:6]}))
+        bad.append(("C10-likelihood-values", {"got": np.atleast_1d(np.asarray(out)).reshape(-1).tolist()[:6], "want": ref.tolist()[:6]}))
     if model.likelihood_evaluations - c0 != N:
         bad.append(("C10-counter", {"delta": int(model.likelihood_evaluations - c0), "N": N}))
     seen = np.concatenate([np.atleast_1d(a) for a in args]) if args else phys[:0]
@@ -145,15 +149,22 @@ def eval_cell(cell):
                                       "n_seen": int(len(seen)), "N": N}))
     # priors must not touch the counter
     c1 = model.likelihood_evaluations
-    outp = model.batch_evaluate_log_prior(x, unit_hypercube=unit)
+    try:
+        outp = model.batch_evaluate_log_prior(x, unit_hypercube=unit)
+    except Exception as e:  # noqa
+        return bad + [("C10-exception", {"where": "batch_evaluate_log_prior", "error": repr(e)[:200]})], ()
     refp, _ = pointwise(model, x, "lp", unit)
     if np.asarray(outp).shape != (N,) or not np.array_equal(np.asarray(outp, dtype="float64"), refp):
-        bad.append(("C10-prior-values", {"got": np.asarray(outp).tolist()[:6], "want": refp.tolist()[:6]}))
+        bad.append(("C10-prior-values", {"got": np.atleast_1d(np.asarray(outp)).reshape(-1).tolist()[:6], "want": refp.tolist()[:6]}))
     if unit:
-        outu = model.batch_evaluate_log_prior_unit_hypercube(x)
+        try:
+            outu = model.batch_evaluate_log_prior_unit_hypercube(x)
+        except Exception as e:  # noqa
+            return bad + [("C10-exception", {"where": "batch_evaluate_log_prior_unit_hypercube",
+                                             "error": repr(e)[:200]})], ()
         refu, _ = pointwise(model, x, "lpu", unit)
         if np.asarray(outu).shape != (N,) or not np.array_equal(np.asarray(outu, dtype="float64"), refu):
-            bad.append(("C10-prior-unit-values", {"got": np.asarray(outu).tolist()[:6], "want": refu.tolist()[:6]}))
+            bad.append(("C10-prior-unit-values", {"got": np.atleast_1d(np.asarray(outu)).reshape(-1).tolist()[:6], "want": refu.tolist()[:6]}))
     if model.likelihood_evaluations != c1:
         bad.append(("C10-counter", {"what": "prior evaluation changed the likelihood counter"}))
     orders = tuple(tuple(o) for o in (pool.orders if pool else []))
